@@ -16,7 +16,7 @@ const STREAM: u64 = 2;
 
 pub fn run(ctx: &Ctx) -> Report {
     let n = match ctx.tier {
-        Tier::Quick => ctx.cases(24, 0),
+        Tier::Quick => ctx.cases(96, 0),
         Tier::Thorough => ctx.cases(0, 6 * (40 + 300)),
     };
     let local = run_cases(ctx, n, |case, l| one_case(ctx, case, l));
